@@ -54,10 +54,13 @@ func Gen(t *rapid.T) *Case {
 		np = rapid.IntRange(c.Conc, 8).Draw(t, "npc")
 	}
 	for i := 0; i < np; i++ {
-		p := Pub{Mode: rapid.SampledFrom([]string{"plain", "values", "values", "values", "cancelled"}).Draw(t, "mode")}
+		p := Pub{Mode: rapid.SampledFrom([]string{"plain", "values", "values", "values", "values", "cancelled", "expired"}).Draw(t, "mode")}
 		if p.Mode != "plain" {
 			p.NVals = rapid.IntRange(0, 3).Draw(t, "nvals")
 			p.Foreign = rapid.IntRange(0, 2).Draw(t, "foreign") == 0
+			if p.Foreign {
+				p.EndErr = rapid.SampledFrom([]string{"", "deadline", "custom"}).Draw(t, "endErr")
+			}
 		}
 		p.Any = rapid.IntRange(0, 3).Draw(t, "viaAny") == 0
 		c.Pubs = append(c.Pubs, p)
